@@ -183,8 +183,8 @@ def table_values(ver):
 def plan(tier, seed, excl):
     q = tier == 'quick'
     t = [('table', {'ver': v, 'shard': i, 'of': 2}) for v in ('2.0', '3.0') for i in range(2)]
-    t += [('scalars', {'shard': i, 'n': 2500 if q else 60000}) for i in range(4)]
-    t += [('docs', {'shard': i, 'n': 700 if q else 20000}) for i in range(16)]
+    t += [('scalars', {'shard': i, 'n': 5000 if q else 60000}) for i in range(4)]
+    t += [('docs', {'shard': i, 'n': 1500 if q else 20000}) for i in range(16)]
     return t
 
 
